@@ -492,12 +492,14 @@ PROPERTIES = {
         ],
     },
     "C15": {
-        "technique": "property-based testing of RotatingFileSink time rotation against a two-tier schedule oracle (configured civil schedule / drift-tolerant)",
+        "technique": "property-based testing of RotatingFileSink time rotation against the configured civil schedule (a second, grid-only tier decides where the clocks change)",
         "level_text": ("Exploration: thousands of generated (schedule, zone, start instant, timestamp history) cases per run, dense "
                        "and with gaps of many periods, combined with size rotation and backup limits, all naming schemes; checked "
-                       "against the configured schedule (tier A) and the drift-tolerant schedule (tier B). Held on everything "
-                       "generated (tier B while finding F8 is open)."),
-        "level_note": ("While F8 (schedule drift) is a known finding only tier B is asserted and tier-A disagreements are counted; "
+                       "against the configured schedule (tier A: civil HH:MM of every day in the sink's zone, whole intervals from the first "
+                       "full hour/minute); where the text leaves the schedule open (time of day missing or doubled by a clock change, "
+                       "fractional-hour offset change) any schedule on the configured grid is accepted (tier B). Held on everything "
+                       "generated."),
+        "level_note": ("F8 (schedule drift) was found here and is fixed in /repo (58dadac): tier A is asserted; "
                        "local-time fall-back hours with date-bearing names are stepped over; 12 curated zones, 2001-2030."),
         "rule": ("case = (daily HH:MM | hourly | minutely with interval, GMT/local zone, start instant near/at/after a boundary, "
                  "optional size limit and backup limit, naming scheme) + Write(dt) history; non-trivial = >= 1 time rotation AND (a "
